@@ -77,56 +77,6 @@ func genRows(r *lib.Rng) []Row {
 	return rows
 }
 
-func genAtoms(r *lib.Rng) []whr.Atom {
-	var out []whr.Atom
-	seen := map[string]bool{}
-	n := r.Range(4, 7)
-	for len(out) < n {
-		a := whr.Atom{ID: len(out) + 1}
-		switch r.Intn(10) {
-		case 0, 1:
-			a.Col, a.Op, a.I = "age", "eq", int64(r.Range(0, 5))
-		case 2:
-			a.Col, a.Op, a.I = "age", lib.Pick(r, []string{"lt", "gt", "neq"}), int64(r.Range(1, 4))
-		case 3:
-			a.Col, a.Op, a.IL = "age", "in", []int64{int64(r.Range(0, 2)), int64(r.Range(3, 5))}
-		case 4, 5:
-			a.Col, a.Op, a.IsStr, a.S = "name", "eq", true, lib.Pick(r, names)
-		case 6:
-			a.Col, a.Op, a.IsStr, a.S = "name", "like", true, lib.Pick(r, []string{"a%", "%b", "%c%"})
-		case 7:
-			a.Col, a.Op = "nick", "isnull"
-		case 8:
-			a.Col, a.Op, a.IsStr, a.S = "nick", "eq", true, lib.Pick(r, nicks)
-		case 9:
-			a.Col, a.Op, a.IsStr, a.SL = "name", "in", true, []string{lib.Pick(r, names), lib.Pick(r, names)}
-		}
-		key := a.RawText()
-		// no atom text may be a prefix of another (the lexer takes the longest match)
-		clash := false
-		for k := range seen {
-			if strings.HasPrefix(k, key) || strings.HasPrefix(key, k) {
-				clash = true
-			}
-		}
-		// an atom and the negation gorm renders for another atom must not share a text
-		// (`age` <> 4 is both "neq 4" and the NegationBuild of "eq 4")
-		if a.Op == "eq" || a.Op == "neq" {
-			for _, b := range out {
-				if b.Col == a.Col && b.Op != a.Op && (b.Op == "eq" || b.Op == "neq") && b.I == a.I && b.S == a.S {
-					clash = true
-				}
-			}
-		}
-		if clash {
-			continue
-		}
-		seen[key] = true
-		out = append(out, a)
-	}
-	return out
-}
-
 type env struct {
 	db *gorm.DB
 }
@@ -176,33 +126,12 @@ func (e *env) run(orig Input) Obs {
 	}
 	base := func() *gorm.DB { return db.Session(&gorm.Session{}) }
 	// atom texts: what gorm renders for the atom alone in each form, and for its negation
-	for _, a := range in.Atoms {
-		addText(o.Texts, a.ID, a.RawText())
-		_, ex, _, _ := a.TmplText(false)
-		addText(o.Texts, a.ID, ex)
-		t, err := e.whereText(base().Where(a.Expression()))
-		fail("text", err)
-		addText(o.Texts, a.ID, t)
-		nt, err := e.whereText(base().Not(a.Expression()))
-		fail("ntext", err)
-		addText(o.Texts, a.NegID(), nt)
-		if a.MapOK() {
-			t, err = e.whereText(base().Where(map[string]interface{}{a.Col: a.MapValue()}))
-			fail("mtext", err)
-			addText(o.Texts, a.ID, t)
-			nt, err = e.whereText(base().Not(map[string]interface{}{a.Col: a.MapValue()}))
-			fail("mntext", err)
-			addText(o.Texts, a.NegID(), nt)
+	{
+		texts, errs := whr.DiscoverTexts(db, base, in.Atoms)
+		for _, err := range errs {
+			fail("text", err)
 		}
-		if a.StructOK() {
-			st := whr.StructOf([]whr.Atom{a})
-			t, err = e.whereText(base().Where(&st))
-			fail("stext", err)
-			addText(o.Texts, a.ID, t)
-			nt, err = e.whereText(base().Not(&st))
-			fail("sntext", err)
-			addText(o.Texts, a.NegID(), nt)
-		}
+		o.Texts = texts
 	}
 	// truth tables from SQLite
 	truth := func(id int, text string) {
@@ -340,6 +269,23 @@ func term(orig Input, o Obs) string {
 		lib.Z(int64(len(o.Errs))))
 }
 
+// pickPK: a row id that no `id = k` atom of the case already names (two atoms with one text
+// would make the WHERE text ambiguous for the lexer).
+func pickPK(r *lib.Rng, in Input) int64 {
+	for {
+		k := in.Rows[r.Intn(len(in.Rows))].ID
+		clash := false
+		for _, a := range in.Atoms {
+			if a.Col == "id" && a.Op == "eq" && a.I == k {
+				clash = true
+			}
+		}
+		if !clash {
+			return k
+		}
+	}
+}
+
 func sig(in Input) string {
 	// narrow signatures of known findings, computed from the input only
 	if whr.NotOfAndGroupNoAtom(in.Chain) {
@@ -367,7 +313,7 @@ func main() {
 		out.Count("primary_key_unit", fmt.Sprint(in.PK != 0))
 		for _, c := range in.Chain {
 			out.Count("call", c.Kind)
-			out.Count("form", c.Unit.Form)
+			out.Count("form", c.Unit.Form+"/"+c.Unit.Via)
 		}
 		out.Count("rows_selected", fmt.Sprint(len(o.Find)))
 		out.Count("errors", fmt.Sprint(len(o.Errs)))
@@ -404,7 +350,7 @@ func main() {
 			add("pattern", Input{Rows: genRows(r), Atoms: in0.Atoms, Chain: ch})
 			if i%4 == 0 {
 				rows := genRows(r)
-				add("pattern", Input{Rows: rows, Atoms: in0.Atoms, Chain: ch, PK: rows[r.Intn(len(rows))].ID})
+				add("pattern", Input{Rows: rows, Atoms: in0.Atoms, Chain: ch, PK: pickPK(r, Input{Rows: rows, Atoms: in0.Atoms})})
 			}
 		}
 	}
@@ -444,8 +390,7 @@ func main() {
 		}
 		// first effective call must not be Or (C02 domain): empty units before it do not count
 		for j := range in.Chain {
-			f := in.Chain[j].Unit.Form
-			if f == "empty_string" || f == "empty_map" || f == "empty_struct" {
+			if whr.IsEmptyUnit(in.Chain[j].Unit) {
 				if in.Chain[j].Kind == "or" {
 					in.Chain[j].Kind = "where"
 				}
@@ -461,7 +406,7 @@ func main() {
 			last.Inline = true
 		}
 		if r.Chance(1, 5) {
-			in.PK = in.Rows[r.Intn(len(in.Rows))].ID
+			in.PK = pickPK(r, in)
 		}
 		kind := "main"
 		if hostile {
